@@ -527,7 +527,7 @@ func certainErr(fn *FuncNode, e ast.Expr, stmt ast.Node) bool {
 			if vr.Pkg() != nil && vr.Parent() == vr.Pkg().Scope() {
 				return true
 			}
-			return !vr.IsField() && guardedNonNil(fn, stmt, vr)
+			return !vr.IsField() && (guardedNonNil(fn, stmt, vr) || assignedCertainJustBefore(fn, stmt, vr))
 		}
 		return false
 	case *ast.CallExpr:
@@ -555,4 +555,45 @@ func certainErr(fn *FuncNode, e ast.Expr, stmt ast.Node) bool {
 		return true // &MyError{...}
 	}
 	return false
+}
+
+// assignedCertainJustBefore: in the statement list that contains stmt, the nearest earlier
+// assignment to v (with only plain assignments and expression statements in between) gives
+// it a certainly non-nil error.
+func assignedCertainJustBefore(fn *FuncNode, stmt ast.Node, v *types.Var) bool {
+	found := false
+	ast.Inspect(fn.Body, func(n ast.Node) bool {
+		var list []ast.Stmt
+		switch b := n.(type) {
+		case *ast.BlockStmt:
+			list = b.List
+		case *ast.CaseClause:
+			list = b.Body
+		case *ast.CommClause:
+			list = b.Body
+		}
+		for i, st := range list {
+			if ast.Node(st) != stmt {
+				continue
+			}
+			for j := i - 1; j >= 0; j-- {
+				switch prev := list[j].(type) {
+				case *ast.AssignStmt:
+					for k, l := range prev.Lhs {
+						if objOf(fn, l) == types.Object(v) {
+							if len(prev.Lhs) == len(prev.Rhs) && certainErr(fn, prev.Rhs[k], prev) {
+								found = true
+							}
+							return false
+						}
+					}
+				case *ast.ExprStmt:
+				default:
+					return false
+				}
+			}
+		}
+		return !found
+	})
+	return found
 }
